@@ -1079,6 +1079,13 @@ class DriverLubaRs232(DriverSerialBase):
             # Make sure the received command buffer is empty, so that an
             # unexpected response can't accidentally be used
             self._protocol.reset_dali_response()
+            if msg.devicetype != 0 and not in_transaction:
+                # Within a transaction 'run_sequence()' has already sent
+                # the EnableDeviceType command; a stand-alone command
+                # needs it here
+                await self._protocol.send_dali_command(
+                    gear.general.EnableDeviceType(msg.devicetype)
+                )
             await self._protocol.send_dali_command(msg)
             if msg.is_query:
                 response = msg.response(None)
@@ -1670,6 +1677,13 @@ class DriverSCIRS232(DriverSerialBase):
             # Make sure the received command buffer is empty, so that an
             # unexpected response can't accidentally be used
             self._protocol.reset_dali_response()
+            if msg.devicetype != 0 and not in_transaction:
+                # Within a transaction 'run_sequence()' has already sent
+                # the EnableDeviceType command; a stand-alone command
+                # needs it here
+                await self._protocol.send_dali_command(
+                    gear.general.EnableDeviceType(msg.devicetype)
+                )
             await self._protocol.send_dali_command(msg)
             if msg.is_query:
                 response = msg.response(None)
